@@ -1,4 +1,5 @@
 import IgrisModel.C02.Lemmas
+import IgrisModel.C02.Bisect
 /-!
   C02 — property theorems.
 
@@ -20,17 +21,11 @@ def Op.regs : Op → List Nat
   | .copyCtor d s | .moveCtor d s | .copyAssign d s | .moveAssign d s | .rangeCtor d s _ _
   | .eq d s | .ne d s | .lt d s => [d, s]
 
-/-- insert_sorted is the one member function not covered by the history theorems (std::upper_bound is
-    only run against the model, not proved) -/
-def Op.covered : Op → Bool
-  | .insertSorted _ _ => false
-  | _ => true
-
 /-- ONE OPERATION.  If std::vector accepts the operation in the abstract state `f` (`specStep` is
     defined), the igris code executes it without a fault, returns what std::vector returns, and the new
     state represents std::vector's new contents; the ledger stays balanced. -/
 theorem step_refines (portable : Bool) {R : Nat} {s : St} {f : Nat → List Val} (hI : SInv R s f) (op : Op)
-    (hR : ∀ r ∈ op.regs, r < R) (hc : op.covered = true)
+    (hR : ∀ r ∈ op.regs, r < R)
     {f' : Nat → List Val} {ret : Ret} (hs : specStep f op = some (f', ret)) :
     ∃ s', step portable s op = some (s', ret) ∧ SInv R s' f' := by
   cases op with
@@ -64,7 +59,14 @@ theorem step_refines (portable : Bool) {R : Nat} {s : St} {f : Nat → List Val}
       obtain ⟨v', l', h1, g⟩ := insertRange_good (hI.rep r) hp hy s.led
       exact ⟨_, by simp [step, h1], hI.set (hR r (by simp [Op.regs])) g⟩
     · cases hs
-  | insertSorted r x => simp [Op.covered] at hc
+  | insertSorted r x =>
+    -- std::upper_bound = the libstdc++ bisection, equal to `ubSpec` on the sorted contents (Bisect.lean)
+    simp only [specStep] at hs
+    split at hs
+    · rename_i hp; cases hs
+      obtain ⟨v', l', h1, g⟩ := insertSorted_good (hI.rep r) hp x s.led
+      exact ⟨_, by simp [step, h1], hI.set (hR r (by simp [Op.regs])) g⟩
+    · cases hs
   | erase r a b =>
     simp only [specStep] at hs
     split at hs
@@ -266,7 +268,7 @@ def runOut (portable : Bool) : St → List Op → Option (St × List Ret)
     | some (s', r) => (runOut portable s' ops).map fun (t, rs) => (t, r :: rs)
 
 theorem run_refines_from (portable : Bool) {R : Nat} (ops : List Op) {s : St} {f : Nat → List Val} (hI : SInv R s f)
-    (hR : ∀ op ∈ ops, ∀ r ∈ op.regs, r < R) (hc : ∀ op ∈ ops, op.covered = true)
+    (hR : ∀ op ∈ ops, ∀ r ∈ op.regs, r < R)
     {f' : Nat → List Val} {rets : List Ret} (hs : runSpec f ops = some (f', rets)) :
     ∃ s', runOut portable s ops = some (s', rets) ∧ SInv R s' f' := by
   induction ops generalizing s f rets with
@@ -281,29 +283,31 @@ theorem run_refines_from (portable : Bool) {R : Nat} (ops : List Op) {s : St} {f
       simp only [Option.map_eq_some_iff] at hs
       obtain ⟨⟨g, rs⟩, h2, he⟩ := hs
       cases he
-      obtain ⟨s1, hs1, hI1⟩ := step_refines portable hI op (hR op (by simp)) (hc op (by simp)) h1
-      obtain ⟨s2, hs2, hI2⟩ := ih hI1 (fun o ho => hR o (by simp [ho])) (fun o ho => hc o (by simp [ho])) h2
+      obtain ⟨s1, hs1, hI1⟩ := step_refines portable hI op (hR op (by simp)) h1
+      obtain ⟨s2, hs2, hI2⟩ := ih hI1 (fun o ho => hR o (by simp [ho])) h2
       exact ⟨s2, by simp [runOut, hs1, hs2], hI2⟩
 
 /-- REFINEMENT (clause 1 of C02).  Any history of operations that std::vector accepts — push/emplace
     (also with an argument that refers to an element of the same vector), insert/emplace at any position,
     range insert of own or foreign elements, erase, truncation, pop, resize, reserve, clear, invalidate,
     copy/move construction and assignment (incl. self assignment), the range / size / initializer-list
-    constructors, ==, !=, <, at, [], front/back, iteration — on any number of vector objects runs on the
+    constructors, ==, !=, <, at, [], front/back, iteration, insert_sorted on sorted contents (the
+    std::upper_bound bisection is part of the model and proved equal to `ubSpec`) — on any number of vector objects runs on the
     igris code (both copies) without a fault, returns exactly what std::vector returns (positions,
     comparison results = list equality / lexicographic order, at() throwing exactly when std's does) and
     leaves every vector with std::vector's size and element sequence. -/
 theorem vector_refines_list (portable : Bool) (R : Nat) (ops : List Op)
-    (hR : ∀ op ∈ ops, ∀ r ∈ op.regs, r < R) (hc : ∀ op ∈ ops, op.covered = true)
+    (hR : ∀ op ∈ ops, ∀ r ∈ op.regs, r < R)
     {f' : Nat → List Val} {rets : List Ret} (hs : runSpec (fun _ => []) ops = some (f', rets)) :
     ∃ s', runOut portable St.init ops = some (s', rets) ∧ ∀ r, Rep (s'.regs r) (f' r) := by
-  obtain ⟨s', h1, h2⟩ := run_refines_from portable ops (SInv.init R) hR hc hs
+  obtain ⟨s', h1, h2⟩ := run_refines_from portable ops (SInv.init R) hR hs
   exact ⟨s', h1, h2.rep⟩
 
 /-- the hypotheses are satisfiable: a history with an aliasing push, an aliasing insert, copy
-    assignment and comparisons is accepted by std::vector -/
+    assignment, comparisons and insert_sorted (front, back, between equal elements) is accepted by std::vector -/
 example : ∃ f rets, runSpec (fun _ => []) [.emplaceBack 0 (.val 5), .emplaceBack 0 (.own 0), .emplace 0 0 (.own 1),
-    .copyAssign 1 0, .eq 0 1, .lt 0 1, .erase 0 0 1, .popBack 1] = some (f, rets) := ⟨_, _, rfl⟩
+    .copyAssign 1 0, .eq 0 1, .lt 0 1, .erase 0 0 1, .popBack 1, .insertSorted 1 3, .insertSorted 1 9, .insertSorted 1 5]
+    = some (f, rets) := ⟨_, _, rfl⟩
 
 /-- size ≤ capacity and capacity = size of the allocated block, in every reachable state -/
 theorem size_le_capacity {v : Vec} {xs : List Val} (h : Rep v xs) :
@@ -320,11 +324,11 @@ theorem size_le_capacity {v : Vec} {xs : List Val} (h : Rep v xs) :
     constructions = destructions, allocations = deallocations.  Since construction needs an unconstructed
     slot and destruction a constructed one, no object is destroyed twice. -/
 theorem vector_lifetime (portable : Bool) (R : Nat) (ops : List Op)
-    (hR : ∀ op ∈ ops, ∀ r ∈ op.regs, r < R) (hc : ∀ op ∈ ops, op.covered = true)
+    (hR : ∀ op ∈ ops, ∀ r ∈ op.regs, r < R)
     {f' : Nat → List Val} {rets : List Ret} (hs : runSpec (fun _ => []) ops = some (f', rets)) :
     ∃ s' s'', runOut portable St.init ops = some (s', rets) ∧ destroyAll s' R = some s'' ∧
       s''.led.made = s''.led.dtor ∧ s''.led.alloc = s''.led.dealloc ∧ ∀ r, r < R → s''.regs r = Vec.empty := by
-  obtain ⟨s', h1, hI⟩ := run_refines_from portable ops (SInv.init R) hR hc hs
+  obtain ⟨s', h1, hI⟩ := run_refines_from portable ops (SInv.init R) hR hs
   obtain ⟨s'', h2, hI2, hE⟩ := destroyAll_ok hI R (Nat.le_refl _)
   refine ⟨s', s'', h1, h2, ?_, ?_, hE⟩
   · have hn := hI2.net
@@ -336,12 +340,12 @@ theorem vector_lifetime (portable : Bool) (R : Nat) (ops : List Op)
 
 /-- in every reachable state the ledger says: objects alive = elements held, blocks = vectors with storage -/
 theorem ledger_balance (portable : Bool) (R : Nat) (ops : List Op)
-    (hR : ∀ op ∈ ops, ∀ r ∈ op.regs, r < R) (hc : ∀ op ∈ ops, op.covered = true)
+    (hR : ∀ op ∈ ops, ∀ r ∈ op.regs, r < R)
     {f' : Nat → List Val} {rets : List Ret} (hs : runSpec (fun _ => []) ops = some (f', rets)) :
     ∃ s', runOut portable St.init ops = some (s', rets) ∧
       s'.led.net = total (fun r => ((f' r).length : Int)) R ∧
       s'.led.blocks = total (fun r => held (s'.regs r)) R := by
-  obtain ⟨s', h1, hI⟩ := run_refines_from portable ops (SInv.init R) hR hc hs
+  obtain ⟨s', h1, hI⟩ := run_refines_from portable ops (SInv.init R) hR hs
   exact ⟨s', h1, hI.net, hI.blk⟩
 
 /-! ### findings on the model / spec level -/
